@@ -533,6 +533,9 @@ func (t *Topic) handleTopicTermination(sd *shutDown) {
 
 	// Tell sessions to remove the topic
 	for s := range t.sessions {
+		// Remove the subscription right away, not only through the session's write loop: a request
+		// queued by the session for a topic which is already gone would never be processed.
+		s.delSub(t.name)
 		s.detachSession(t.name)
 	}
 
@@ -591,7 +594,67 @@ func (t *Topic) runLocal(hub *Hub) {
 
 		case sd := <-t.exit:
 			t.handleTopicTermination(sd)
+			t.rejectPendingRequests(hub)
+			if sd.reason != StopShutdown {
+				// A session which had looked up its subscription just before it was removed may still
+				// queue a request: keep disposing of such late arrivals for a short while.
+				go func() {
+					for i := 0; i < 10; i++ {
+						time.Sleep(50 * time.Millisecond)
+						t.rejectPendingRequests(hub)
+					}
+				}()
+			}
 			return
+		}
+	}
+}
+
+// rejectPendingRequests disposes of the requests which were queued for the topic while it was being
+// terminated. Nobody reads the topic's channels any more: without this the requests would never be
+// answered and the in-flight request counters of their sessions would never be released, blocking
+// those sessions on their next {sub} or {leave}.
+func (t *Topic) rejectPendingRequests(hub *Hub) {
+	now := types.TimeNow()
+	for len(t.reg) > 0 {
+		msg := <-t.reg
+		// The topic is not registered with the hub any more: let the hub load it again or report that it is gone.
+		select {
+		case hub.join <- msg:
+		default:
+			if msg.sess != nil {
+				if msg.sess.inflightReqs != nil {
+					msg.sess.inflightReqs.Done()
+				}
+				msg.sess.queueOut(ErrServiceUnavailableReply(msg, now))
+			}
+		}
+	}
+	for len(t.unreg) > 0 {
+		msg := <-t.unreg
+		if msg.sess != nil && msg.init {
+			if msg.sess.inflightReqs != nil {
+				msg.sess.inflightReqs.Done()
+			}
+			msg.sess.queueOut(ErrLockedReply(msg, now))
+		}
+	}
+	for len(t.clientMsg) > 0 {
+		msg := <-t.clientMsg
+		if msg.sess != nil && msg.init && msg.Pub != nil {
+			msg.sess.queueOut(ErrLockedReply(msg, now))
+		}
+	}
+	for len(t.meta) > 0 {
+		msg := <-t.meta
+		if msg.sess != nil {
+			msg.sess.queueOut(ErrLockedReply(msg, now))
+		}
+	}
+	// Someone else was stopping the topic at the same time and is waiting for a confirmation.
+	for len(t.exit) > 0 {
+		if sd := <-t.exit; sd.done != nil {
+			sd.done <- true
 		}
 	}
 }
